@@ -294,6 +294,91 @@ func run[V any](r *engine.Rec, c *cfg[V]) {
 		})
 		return
 	}
+	// Bystanders: other sets of the same class (element type), built through each constructor. What the class
+	// keeps for all its instances - a buffer, a cache - shows as one set changing when another is built or used.
+	u := c.universe
+	bystanders := []func() (col.SetLike[V], []V){
+		func() (col.SetLike[V], []V) {
+			return col.Set[V](common.N()).MakeFromArray([]V{u[1], u[0]}), mAdd(c, mAdd(c, nil, u[1]), u[0])
+		},
+		func() (col.SetLike[V], []V) {
+			vals := []V{u[2], u[0], u[1]}
+			var m []V
+			for _, v := range vals {
+				m = mAdd(c, m, v)
+			}
+			return col.Set[V](common.N()).MakeFromSequence(col.List[V](common.N()).MakeFromArray(vals)), m
+		},
+		func() (col.SetLike[V], []V) {
+			st := newSet(c)
+			st.AddValues(col.List[V](common.N()).MakeFromArray([]V{u[1], u[2]}))
+			st.RemoveValue(u[1])
+			return st, mRemove(c, mAdd(c, mAdd(c, nil, u[1]), u[2]), u[1])
+		},
+		func() (col.SetLike[V], []V) {
+			st := col.Set[V](common.N()).MakeFromArray(append([]V(nil), u[:min(4, len(u))]...))
+			st.RemoveAll()
+			st.AddValue(u[1])
+			return st, mAdd(c, nil, u[1])
+		},
+	}
+	defaultOrder := c.collator == nil
+	replay := func(path []Op) (col.SetLike[V], []V, bool) {
+		set, m, out := build(path[0])
+		if out.Panicked {
+			return nil, nil, false
+		}
+		for _, p := range path[1:] {
+			opnd, content := operand(c, p.S, set, m)
+			exp := model(p, m, content)
+			_, o := apply(p, set, opnd)
+			if o.Fuel {
+				return nil, nil, false
+			}
+			if !o.Panicked {
+				m = exp.m
+			}
+		}
+		return set, m, true
+	}
+	interference := func(path []Op, op Op) (string, string) {
+		for bi, mk := range bystanders {
+			if !defaultOrder && bi != 2 {
+				continue // the class-level constructors build default-ordered sets: their model contents differ under this collator
+			}
+			set, m, ok := replay(path)
+			if !ok {
+				return "", ""
+			}
+			var by col.SetLike[V]
+			var bm []V
+			if out := rt.Protect(fuel, func() { by, bm = mk() }); out.Panicked || out.Fuel {
+				return "", ""
+			}
+			if !same(set.AsArray(), m) {
+				return "building another set of the same element type changes this one", fmt.Sprintf("bystander %d: got %v want %v", bi, set.AsArray(), m)
+			}
+			opnd, content := operand(c, op.S, set, m)
+			exp := model(op, m, content)
+			_, o := apply(op, set, opnd)
+			if o.Panicked || o.Fuel {
+				continue
+			}
+			if !same(by.AsArray(), bm) {
+				return op.K + " changes another set of the same element type", fmt.Sprintf("bystander %d: got %v want %v", bi, by.AsArray(), bm)
+			}
+			if out := rt.Protect(fuel, func() { by, bm = mk() }); out.Panicked || out.Fuel {
+				return "", ""
+			}
+			if !same(set.AsArray(), exp.m) {
+				return "building another set of the same element type after " + op.K + " changes this one", fmt.Sprintf("bystander %d: got %v want %v", bi, set.AsArray(), exp.m)
+			}
+			if !same(by.AsArray(), bm) {
+				return "a set built after " + op.K + " on another set has the wrong contents", fmt.Sprintf("bystander %d: got %v want %v", bi, by.AsArray(), bm)
+			}
+		}
+		return "", ""
+	}
 	s.Exec = func(path []Op, op Op) seqx.Step {
 		cs := seqx.Case[Op]{Search: name, Path: path, Op: op}
 		viol := func(sig, detail string) seqx.Step {
@@ -397,6 +482,9 @@ func run[V any](r *engine.Rec, c *cfg[V]) {
 			if k > 0 && coll.RankValues(set.GetValue(k), v) != age.EqualRank {
 				return viol("GetIndex(v)=k but GetValue(k) does not rank equal to v", fmt.Sprint(got, v, k))
 			}
+		}
+		if sig, detail := interference(path, op); sig != "" {
+			return viol(sig, detail)
 		}
 		if len(r.Samples) < 2 && len(path) >= 3 {
 			r.Sample(map[string]any{"search": name, "path": fmt.Sprintf("%+v", path), "op": fmt.Sprintf("%+v", op), "set_after": fmt.Sprint(exp.m)})
